@@ -21,6 +21,13 @@ type execExtra struct {
 	pendingGuardHeaps []string
 	rangeKeys         map[*ssa.Range]string
 	havocAll          bool
+	closures          map[*Node]*ClosureV
+	phiIn             map[*ssa.BasicBlock][]phiEdge
+}
+
+type phiEdge struct {
+	from *ssa.BasicBlock
+	pc   *Node
 }
 
 func (e *Exec) bindSites() {
@@ -64,6 +71,18 @@ func (e *Exec) siteMatches(ss *SiteSpec, ins ssa.Instruction) bool {
 		}
 		name := calleeName(c)
 		return name == ss.Target || shortFuncName(name) == ss.Target || strings.HasSuffix(name, "."+ss.Target) || strings.HasSuffix(name, ")."+ss.Target)
+	case "go":
+		g, ok := ins.(*ssa.Go)
+		if !ok {
+			return false
+		}
+		if mc, ok := g.Call.Value.(*ssa.MakeClosure); ok {
+			return e.v.closureName(mc.Fn.(*ssa.Function)) == ss.Target
+		}
+		if f, ok := g.Call.Value.(*ssa.Function); ok {
+			return f.Name() == ss.Target || (f.Parent() != nil && e.v.closureName(f) == ss.Target)
+		}
+		return false
 	case "return":
 		_, ok := ins.(*ssa.Return)
 		return ok
@@ -72,9 +91,18 @@ func (e *Exec) siteMatches(ss *SiteSpec, ins ssa.Instruction) bool {
 		if !ok {
 			return false
 		}
-		if fa, ok := st.Addr.(*ssa.FieldAddr); ok {
-			stt := derefType(fa.X.Type()).Underlying().(*types.Struct)
-			return stt.Field(fa.Field).Name() == ss.Target
+		if i := strings.Index(ss.Target, "."); i >= 0 {
+			fa, ok := st.Addr.(*ssa.FieldAddr)
+			if !ok {
+				return false
+			}
+			pt := derefType(fa.X.Type())
+			stt := pt.Underlying().(*types.Struct)
+			tn := ""
+			if n, ok := pt.(*types.Named); ok {
+				tn = n.Obj().Name()
+			}
+			return tn == ss.Target[:i] && stt.Field(fa.Field).Name() == ss.Target[i+1:]
 		}
 		if a, ok := st.Addr.(*ssa.Alloc); ok {
 			return a.Comment == ss.Target
@@ -93,6 +121,11 @@ func (e *Exec) runSiteSpecs(s *State, ins ssa.Instruction, specs []*SiteSpec, be
 		}
 		extra := map[string]specVar{}
 		// arguments of the call as arg0..argN; results as res / res0..
+		if g, ok := ins.(*ssa.Go); ok {
+			for i, a := range g.Call.Args {
+				extra[fmt.Sprintf("arg%d", i)] = specVar{e.val(s, a), a.Type()}
+			}
+		}
 		if c, ok := ins.(*ssa.Call); ok {
 			for i, a := range c.Call.Args {
 				extra[fmt.Sprintf("arg%d", i)] = specVar{e.val(s, a), a.Type()}
@@ -118,7 +151,9 @@ func (e *Exec) runSiteSpecs(s *State, ins ssa.Instruction, specs []*SiteSpec, be
 		for _, a := range ss.Assume {
 			s.assume(e.evalClauseCur(a, s, e.entry, extra))
 		}
-		e.counters["site:"+ss.Label]++
+		if e.quiet == 0 {
+			e.counters["site:"+ss.Label]++
+		}
 		ord := e.counters["site:"+ss.Label]
 		for i, a := range ss.Assert {
 			g := e.evalClauseCur(a, s, e.entry, extra)
